@@ -1210,7 +1210,7 @@ class Weaver:
                         mt.replace(fz[0], fz[0] + fz[1], new_)
                         continue
                     log.append((rid, 'ANCHOR LOST: %s' % norm(old[1])))
-                    if rid.endswith('!'):
+                    if rid.endswith('!') or 'format!(' in old[1]:
                         lost.append('essential substitution %r (the expression it replaces is uninterpreted for the verifier)' % norm(old[1]))
                     continue
                 for m_ in reversed(ms):
@@ -1228,7 +1228,8 @@ class Weaver:
                     mt.replace(fz[0], fz[0] + fz[1], new_)
                     continue
                 log.append((rid, 'ANCHOR LOST: %s' % norm(old)))
-                if rid.endswith('!'):
+                # `format!` is accepted by Verus with an unspecified result: a lost substitution of a formatted text is essential as well
+                if rid.endswith('!') or 'format!(' in old:
                     lost.append('essential substitution %r (the expression it replaces is uninterpreted for the verifier)' % norm(old))
                 continue
             pos = 0
